@@ -588,6 +588,7 @@ class ChemicalIndexer(Indexer):
     
     def to_material_indexer(self, phases):
         material_array = self._MaterialIndexer.blank(phases, self._chemicals)
+        if not self.data.any(): return material_array
         phase = self.phase
         if phase not in phases: 
             if phase.isupper():
